@@ -720,6 +720,16 @@ func (t *FnTrans) havocModifies(item string, pre *Env, st *HeapState, reach stri
 		t.replaceState(st, t.havocAll(st))
 		return
 	}
+	if item == "allbytes" {
+		// every byte-slice content may change (used by assumed buffer layers)
+		comp := "B." + t.sortKey(types.Typ[types.Uint8])
+		srt := arraySort("Int", arraySort(t.mode.idxSort(), t.mode.intSort(8)))
+		t.heapGet(st, comp, srt)
+		delete(st.cur, comp)
+		t.epochs++
+		st.pending[comp] = t.epochs
+		return
+	}
 	ex, err := parser.ParseExpr(item)
 	if err != nil {
 		t.note("modifies item %q does not parse: whole heap havocked", item)
@@ -778,6 +788,9 @@ func (t *FnTrans) havocModifies(item string, pre *Env, st *HeapState, reach stri
 		}
 		if id != nil && id.Name == "ghost" && len(n.Args) == 2 {
 			o := pre.eval(n.Args[0])
+			if o.K == VConst {
+				o = scalar(nil, "0")
+			}
 			lit, _ := n.Args[1].(*ast.BasicLit)
 			if lit == nil || o.K != VScalar {
 				panic(&exprError{"bad ghost() item"})
@@ -844,7 +857,7 @@ func (t *FnTrans) siteHook(kind string, in ssa.Instruction, b *ssa.BasicBlock, i
 		if s.Kind != kind {
 			continue
 		}
-		if s.Text != "" && !strings.HasPrefix(text, s.Text) {
+		if s.Text != "" && !siteTextMatch(kind, text, s.Text) {
 			continue
 		}
 		if t.siteOrdinal(s, kind, in) != s.Ordinal {
@@ -1022,7 +1035,7 @@ func (t *FnTrans) siteOrdinal(s *SiteSpec, kind string, in ssa.Instruction) int 
 			if !ok {
 				continue
 			}
-			if s.Text != "" && !strings.HasPrefix(text, s.Text) {
+			if s.Text != "" && !siteTextMatch(kind, text, s.Text) {
 				continue
 			}
 			cs = append(cs, cand{i2, i2.Pos(), n})
@@ -1040,4 +1053,16 @@ func (t *FnTrans) siteOrdinal(s *SiteSpec, kind string, in ssa.Instruction) int 
 	}
 	t.siteRanks[s] = m
 	return m[in]
+}
+
+// siteTextMatch: calls match on the complete callee expression (the text up
+// to the opening parenthesis); other kinds match on a prefix of the statement.
+func siteTextMatch(kind, text, want string) bool {
+	if !strings.HasPrefix(text, want) {
+		return false
+	}
+	if kind == "call" {
+		return len(text) > len(want) && text[len(want)] == '('
+	}
+	return true
 }
